@@ -11,8 +11,6 @@ import (
 	"sync"
 
 	"github.com/tuneinsight/lattigo/v6/circuits/ckks/bootstrapping"
-	"github.com/tuneinsight/lattigo/v6/circuits/ckks/dft"
-	"github.com/tuneinsight/lattigo/v6/circuits/ckks/mod1"
 	"github.com/tuneinsight/lattigo/v6/circuits/common/polynomial"
 	"github.com/tuneinsight/lattigo/v6/core/rgsw"
 	"github.com/tuneinsight/lattigo/v6/core/rlwe"
@@ -34,8 +32,12 @@ type value struct {
 	mk    func(w *world, g *gen) any
 }
 
+// Z returns the zero-value factory of T (what a caller allocates before ReadFrom / UnmarshalBinary).
+func Z[T any]() func() any { return func() any { return new(T) } }
+
 type entry struct {
 	name string // as it appears in signatures; checked against the reflected type name at start-up
+	zero func() any
 	vals []value
 	// eq overrides the generic equality (only for types whose unexported state cannot be compared structurally)
 	eq func(a, b any) bool
@@ -48,11 +50,28 @@ type entry struct {
 
 // world: parameter sets and secret keys shared by all constructors (read-only after construction).
 type world struct {
-	pA, pB, pC rlwe.Parameters // A: N=16, 3Q+2P (30 bit); B: N=32, 2Q+1P (45 bit); C: N=16, 2Q, no P (55 bit)
-	skA, skA2  *rlwe.SecretKey
-	skB, skC   *rlwe.SecretKey
-	bgvA       bgv.Parameters
-	ckksA      ckks.Parameters
+	pA, pB, pC        rlwe.Parameters // A: N=16, 3Q+2P (30 bit); B: N=32, 2Q+1P (45 bit); C: N=16, 2Q, no P (55 bit)
+	skA, skA2         *rlwe.SecretKey
+	skB, skC          *rlwe.SecretKey
+	bgvOnce, ckksOnce sync.Once
+	bgvA              bgv.Parameters // built on first use (10 ms each; a restarted helper rarely needs them)
+	ckksA             ckks.Parameters
+}
+
+func (w *world) getBgvA() bgv.Parameters {
+	w.bgvOnce.Do(func() {
+		qa := uni.Primes(4, 30, 5)
+		w.bgvA = must(bgv.NewParametersFromLiteral(bgv.ParametersLiteral{LogN: 4, Q: qa[:3], P: qa[3:], PlaintextModulus: 97}))
+	})
+	return w.bgvA
+}
+
+func (w *world) getCkksA() ckks.Parameters {
+	w.ckksOnce.Do(func() {
+		qa := uni.Primes(4, 30, 5)
+		w.ckksA = must(ckks.NewParametersFromLiteral(ckks.ParametersLiteral{LogN: 4, Q: qa[:3], P: qa[3:], LogDefaultScale: 20}))
+	})
+	return w.ckksA
 }
 
 // gen is the per-value deterministic randomness.
@@ -129,13 +148,6 @@ func getWorld(seed uint64) *world {
 		w.skA2 = rlwe.NewKeyGenerator(w.pA).GenSecretKeyNew()
 		w.skB = rlwe.NewKeyGenerator(w.pB).GenSecretKeyNew()
 		w.skC = rlwe.NewKeyGenerator(w.pC).GenSecretKeyNew()
-		var err error
-		if w.bgvA, err = bgv.NewParametersFromLiteral(bgv.ParametersLiteral{LogN: 4, Q: qa[:3], P: qa[3:], PlaintextModulus: 97}); err != nil {
-			panic(err)
-		}
-		if w.ckksA, err = ckks.NewParametersFromLiteral(ckks.ParametersLiteral{LogN: 4, Q: qa[:3], P: qa[3:], LogDefaultScale: 20}); err != nil {
-			panic(err)
-		}
 		theWorld = w
 	})
 	return theWorld
@@ -237,13 +249,13 @@ func catalogue() []*entry {
 	V := func(label string, mk func(w *world, g *gen) any) value { return value{label, mk} }
 	es := []*entry{
 		// ---- utils/structs on primitive words (reaches every buffer.Read/Write*Slice width)
-		{name: "structs.Vector[uint64]", vals: []value{
+		{name: "structs.Vector[uint64]", zero: Z[structs.Vector[uint64]](), vals: []value{
 			V("empty", func(w *world, g *gen) any { v := structs.Vector[uint64]{}; return &v }),
 			V("len1", func(w *world, g *gen) any { v := structs.Vector[uint64]{1<<63 + 5}; return &v }),
 			V("len16", func(w *world, g *gen) any { v := make(structs.Vector[uint64], 16); g.fill(&v); return &v }),
 			V("len37", func(w *world, g *gen) any { v := make(structs.Vector[uint64], 37); g.fill(&v); return &v }),
 		}},
-		{name: "structs.Vector[uint32]", vals: []value{
+		{name: "structs.Vector[uint32]", zero: Z[structs.Vector[uint32]](), vals: []value{
 			V("empty", func(w *world, g *gen) any { v := structs.Vector[uint32]{}; return &v }),
 			V("len3", func(w *world, g *gen) any { v := structs.Vector[uint32]{1, 0xfffffffe, 7}; return &v }),
 			V("len41", func(w *world, g *gen) any {
@@ -254,7 +266,7 @@ func catalogue() []*entry {
 				return &v
 			}),
 		}},
-		{name: "structs.Vector[uint16]", vals: []value{
+		{name: "structs.Vector[uint16]", zero: Z[structs.Vector[uint16]](), vals: []value{
 			V("len1", func(w *world, g *gen) any { v := structs.Vector[uint16]{0xfffe}; return &v }),
 			V("len43", func(w *world, g *gen) any {
 				v := make(structs.Vector[uint16], 43)
@@ -264,7 +276,7 @@ func catalogue() []*entry {
 				return &v
 			}),
 		}},
-		{name: "structs.Vector[uint8]", vals: []value{
+		{name: "structs.Vector[uint8]", zero: Z[structs.Vector[uint8]](), vals: []value{
 			V("empty", func(w *world, g *gen) any { v := structs.Vector[uint8]{}; return &v }),
 			V("len5", func(w *world, g *gen) any { v := structs.Vector[uint8]{1, 2, 3, 0xff, 0}; return &v }),
 			V("len47", func(w *world, g *gen) any {
@@ -275,7 +287,7 @@ func catalogue() []*entry {
 				return &v
 			}),
 		}},
-		{name: "structs.Vector[float64]", vals: []value{
+		{name: "structs.Vector[float64]", zero: Z[structs.Vector[float64]](), vals: []value{
 			V("len2", func(w *world, g *gen) any { v := structs.Vector[float64]{-0.5, 3e300}; return &v }),
 			V("len19", func(w *world, g *gen) any {
 				v := make(structs.Vector[float64], 19)
@@ -285,7 +297,7 @@ func catalogue() []*entry {
 				return &v
 			}),
 		}},
-		{name: "structs.Vector[int]", vals: []value{
+		{name: "structs.Vector[int]", zero: Z[structs.Vector[int]](), vals: []value{
 			V("len3", func(w *world, g *gen) any { v := structs.Vector[int]{-1, 0, 1 << 40}; return &v }),
 			V("len18", func(w *world, g *gen) any {
 				v := make(structs.Vector[int], 18)
@@ -295,7 +307,7 @@ func catalogue() []*entry {
 				return &v
 			}),
 		}},
-		{name: "structs.Matrix[uint64]", vals: []value{
+		{name: "structs.Matrix[uint64]", zero: Z[structs.Matrix[uint64]](), vals: []value{
 			V("empty", func(w *world, g *gen) any { v := structs.Matrix[uint64]{}; return &v }),
 			V("3x16", func(w *world, g *gen) any {
 				v := structs.Matrix[uint64]{make([]uint64, 16), make([]uint64, 16), make([]uint64, 16)}
@@ -310,19 +322,19 @@ func catalogue() []*entry {
 			V("1x1", func(w *world, g *gen) any { v := structs.Matrix[uint64]{{42}}; return &v }),
 		}},
 		// ---- polynomials
-		{name: "ring.Poly", vals: []value{
+		{name: "ring.Poly", zero: Z[ring.Poly](), vals: []value{
 			V("A-level2", func(w *world, g *gen) any { p := rndPoly(g, w.pA, 2); return &p }),
 			V("A-level0", func(w *world, g *gen) any { p := rndPoly(g, w.pA, 0); return &p }),
 			V("B-level1-N32", func(w *world, g *gen) any { p := rndPoly(g, w.pB, 1); return &p }),
 			V("zero-value", func(w *world, g *gen) any { return &ring.Poly{} }),
 		}},
-		{name: "ringqp.Poly", vals: []value{
+		{name: "ringqp.Poly", zero: Z[ringqp.Poly](), vals: []value{
 			V("A-2-1", func(w *world, g *gen) any { p := rndPolyQP(g, w.pA, 2, 1); return &p }),
 			V("A-0-0", func(w *world, g *gen) any { p := rndPolyQP(g, w.pA, 0, 0); return &p }),
 			V("C-noP", func(w *world, g *gen) any { p := rndPolyQP(g, w.pC, 1, -1); return &p }),
 			V("B-1-0-N32", func(w *world, g *gen) any { p := rndPolyQP(g, w.pB, 1, 0); return &p }),
 		}},
-		{name: "structs.Vector[ring.Poly]", vals: []value{
+		{name: "structs.Vector[ring.Poly]", zero: Z[structs.Vector[ring.Poly]](), vals: []value{
 			V("empty", func(w *world, g *gen) any { v := structs.Vector[ring.Poly]{}; return &v }),
 			V("3polys", func(w *world, g *gen) any {
 				v := structs.Vector[ring.Poly]{rndPoly(g, w.pA, 2), rndPoly(g, w.pA, 2), rndPoly(g, w.pA, 2)}
@@ -330,7 +342,7 @@ func catalogue() []*entry {
 			}),
 			V("1poly-level0", func(w *world, g *gen) any { v := structs.Vector[ring.Poly]{rndPoly(g, w.pA, 0)}; return &v }),
 		}},
-		{name: "structs.Vector[ringqp.Poly]", vals: []value{
+		{name: "structs.Vector[ringqp.Poly]", zero: Z[structs.Vector[ringqp.Poly]](), vals: []value{
 			V("empty", func(w *world, g *gen) any { v := structs.Vector[ringqp.Poly]{}; return &v }),
 			V("2polys", func(w *world, g *gen) any {
 				v := structs.Vector[ringqp.Poly]{rndPolyQP(g, w.pA, 2, 1), rndPolyQP(g, w.pA, 2, 1)}
@@ -341,7 +353,7 @@ func catalogue() []*entry {
 				return &v
 			}),
 		}},
-		{name: "structs.Matrix[ringqp.Poly]", vals: []value{ // value type of the multiparty CRPs
+		{name: "structs.Matrix[ringqp.Poly]", zero: Z[structs.Matrix[ringqp.Poly]](), vals: []value{ // value type of the multiparty CRPs
 			V("empty", func(w *world, g *gen) any { v := structs.Matrix[ringqp.Poly]{}; return &v }),
 			V("2x1", func(w *world, g *gen) any {
 				v := structs.Matrix[ringqp.Poly]{{rndPolyQP(g, w.pA, 2, 1)}, {rndPolyQP(g, w.pA, 2, 1)}}
@@ -353,27 +365,27 @@ func catalogue() []*entry {
 			}),
 		}},
 		// ---- metadata and scale
-		{name: "rlwe.Scale", vals: []value{
+		{name: "rlwe.Scale", zero: Z[rlwe.Scale](), vals: []value{
 			V("zero-value", func(w *world, g *gen) any { return &rlwe.Scale{} }),
 			V("2^40", func(w *world, g *gen) any { s := rlwe.NewScale(new(big.Int).Lsh(big.NewInt(1), 40)); return &s }),
 			V("3-mod-65537", func(w *world, g *gen) any { s := rlwe.NewScaleModT(3, 65537); return &s }),
 			V("1.2345e-5", func(w *world, g *gen) any { s := rlwe.NewScale(1.2345e-5); return &s }),
 			V("2^400", func(w *world, g *gen) any { s := rlwe.NewScale(new(big.Int).Lsh(big.NewInt(1), 400)); return &s }),
 		}},
-		{name: "rlwe.CiphertextMetaData", vals: []value{
+		{name: "rlwe.CiphertextMetaData", zero: Z[rlwe.CiphertextMetaData](), vals: []value{
 			V("FF", func(w *world, g *gen) any { return &rlwe.CiphertextMetaData{} }),
 			V("TF", func(w *world, g *gen) any { return &rlwe.CiphertextMetaData{IsNTT: true} }),
 			V("FT", func(w *world, g *gen) any { return &rlwe.CiphertextMetaData{IsMontgomery: true} }),
 			V("TT", func(w *world, g *gen) any { return &rlwe.CiphertextMetaData{IsNTT: true, IsMontgomery: true} }),
 		}},
-		{name: "rlwe.PlaintextMetaData", vals: []value{
+		{name: "rlwe.PlaintextMetaData", zero: Z[rlwe.PlaintextMetaData](), vals: []value{
 			V("md0", func(w *world, g *gen) any { m := metaData(0).PlaintextMetaData; return &m }),
 			V("md1", func(w *world, g *gen) any { m := metaData(1).PlaintextMetaData; return &m }),
 			V("md2-modT", func(w *world, g *gen) any { m := metaData(2).PlaintextMetaData; return &m }),
 			V("md3", func(w *world, g *gen) any { m := metaData(3).PlaintextMetaData; return &m }),
 			V("md4-scale-2^400", func(w *world, g *gen) any { m := metaData(4).PlaintextMetaData; return &m }),
 		}},
-		{name: "rlwe.MetaData", vals: []value{
+		{name: "rlwe.MetaData", zero: Z[rlwe.MetaData](), vals: []value{
 			V("md0", func(w *world, g *gen) any { m := metaData(0); return &m }),
 			V("md1", func(w *world, g *gen) any { m := metaData(1); return &m }),
 			V("md2-modT", func(w *world, g *gen) any { m := metaData(2); return &m }),
@@ -381,7 +393,7 @@ func catalogue() []*entry {
 			V("md4-scale-2^400", func(w *world, g *gen) any { m := metaData(4); return &m }),
 		}},
 		// ---- plaintexts / ciphertexts
-		{name: "rlwe.Plaintext", vals: []value{
+		{name: "rlwe.Plaintext", zero: Z[rlwe.Plaintext](), vals: []value{
 			V("A-level2-md1", func(w *world, g *gen) any {
 				pt := rlwe.NewPlaintext(w.pA, 2)
 				g.fill(pt)
@@ -407,14 +419,14 @@ func catalogue() []*entry {
 				return pt
 			}),
 		}},
-		{name: "rlwe.Ciphertext", vals: []value{
+		{name: "rlwe.Ciphertext", zero: Z[rlwe.Ciphertext](), vals: []value{
 			V("A-deg1-level2-md1", func(w *world, g *gen) any { return rndCt(g, w.pA, 1, 2, 1) }),
 			V("A-deg2-level1-md2", func(w *world, g *gen) any { return rndCt(g, w.pA, 2, 1, 2) }),
 			V("A-deg0-level0-md0", func(w *world, g *gen) any { return rndCt(g, w.pA, 0, 0, 0) }),
 			V("A-deg1-level0-nil-metadata", func(w *world, g *gen) any { return rndCt(g, w.pA, 1, 0, -1) }),
 			V("B-deg1-level1-md3-N32", func(w *world, g *gen) any { return rndCt(g, w.pB, 1, 1, 3) }),
 		}},
-		{name: "rlwe.Element[ringqp.Poly]", vals: []value{
+		{name: "rlwe.Element[ringqp.Poly]", zero: Z[rlwe.Element[ringqp.Poly]](), vals: []value{
 			V("A-deg1-2-1", func(w *world, g *gen) any {
 				e := rlwe.NewElementExtended(w.pA, 1, 2, 1)
 				g.fill(e)
@@ -429,28 +441,28 @@ func catalogue() []*entry {
 			}),
 		}},
 		// ---- keys
-		{name: "rlwe.SecretKey", refill: true, vals: []value{
+		{name: "rlwe.SecretKey", zero: Z[rlwe.SecretKey](), refill: true, vals: []value{
 			V("A", func(w *world, g *gen) any { return rlwe.NewKeyGenerator(w.pA).GenSecretKeyNew() }),
 			V("C-noP", func(w *world, g *gen) any { return rlwe.NewKeyGenerator(w.pC).GenSecretKeyNew() }),
 			V("B-N32", func(w *world, g *gen) any { return rlwe.NewKeyGenerator(w.pB).GenSecretKeyNew() }),
 		}},
-		{name: "rlwe.PublicKey", refill: true, vals: []value{
+		{name: "rlwe.PublicKey", zero: Z[rlwe.PublicKey](), refill: true, vals: []value{
 			V("A", func(w *world, g *gen) any { return rlwe.NewKeyGenerator(w.pA).GenPublicKeyNew(w.skA) }),
 			V("C-noP", func(w *world, g *gen) any { return rlwe.NewKeyGenerator(w.pC).GenPublicKeyNew(w.skC) }),
 			V("B-N32", func(w *world, g *gen) any { return rlwe.NewKeyGenerator(w.pB).GenPublicKeyNew(w.skB) }),
 		}},
-		{name: "rlwe.VectorQP", vals: []value{
+		{name: "rlwe.VectorQP", zero: Z[rlwe.VectorQP](), vals: []value{
 			V("empty", func(w *world, g *gen) any { v := rlwe.VectorQP{}; return &v }),
 			V("size1", func(w *world, g *gen) any { v := rlwe.NewVectorQP(w.pA, 1, 2, 1); g.fill(&v); return &v }),
 			V("size3-level0", func(w *world, g *gen) any { v := rlwe.NewVectorQP(w.pA, 3, 0, 0); g.fill(&v); return &v }),
 		}},
-		{name: "rlwe.GadgetCiphertext", vals: []value{
+		{name: "rlwe.GadgetCiphertext", zero: Z[rlwe.GadgetCiphertext](), vals: []value{
 			V("A-deg1", func(w *world, g *gen) any { c := rlwe.NewGadgetCiphertext(w.pA, 1, 2, 1, 0); g.fill(c); return c }),
 			V("A-deg0-level1-0", func(w *world, g *gen) any { c := rlwe.NewGadgetCiphertext(w.pA, 0, 1, 0, 0); g.fill(c); return c }),
 			V("A-deg1-base2^10", func(w *world, g *gen) any { c := rlwe.NewGadgetCiphertext(w.pA, 1, 1, 0, 10); g.fill(c); return c }),
 			V("C-noP", func(w *world, g *gen) any { c := rlwe.NewGadgetCiphertext(w.pC, 1, 1, -1, 0); g.fill(c); return c }),
 		}},
-		{name: "rlwe.EvaluationKey", refill: true, vals: []value{
+		{name: "rlwe.EvaluationKey", zero: Z[rlwe.EvaluationKey](), refill: true, vals: []value{
 			V("A", func(w *world, g *gen) any { return rlwe.NewKeyGenerator(w.pA).GenEvaluationKeyNew(w.skA, w.skA2) }),
 			V("A-compressed", func(w *world, g *gen) any {
 				return rlwe.NewKeyGenerator(w.pA).GenEvaluationKeyNew(w.skA, w.skA2, evkParams(dflt, dflt, 0, true))
@@ -469,7 +481,7 @@ func catalogue() []*entry {
 				return rlwe.NewKeyGenerator(w.pC).GenEvaluationKeyNew(w.skC, w.skC, evkParams(dflt, dflt, 20, false))
 			}),
 		}},
-		{name: "rlwe.RelinearizationKey", refill: true, vals: []value{
+		{name: "rlwe.RelinearizationKey", zero: Z[rlwe.RelinearizationKey](), refill: true, vals: []value{
 			V("A", func(w *world, g *gen) any { return rlwe.NewKeyGenerator(w.pA).GenRelinearizationKeyNew(w.skA) }),
 			V("A-compressed", func(w *world, g *gen) any {
 				return rlwe.NewKeyGenerator(w.pA).GenRelinearizationKeyNew(w.skA, evkParams(dflt, dflt, 0, true))
@@ -478,7 +490,7 @@ func catalogue() []*entry {
 				return rlwe.NewKeyGenerator(w.pA).GenRelinearizationKeyNew(w.skA, evkParams(0, 0, 0, false))
 			}),
 		}},
-		{name: "rlwe.GaloisKey", refill: true, vals: []value{
+		{name: "rlwe.GaloisKey", zero: Z[rlwe.GaloisKey](), refill: true, vals: []value{
 			V("A-gal5", func(w *world, g *gen) any { return rlwe.NewKeyGenerator(w.pA).GenGaloisKeyNew(5, w.skA) }),
 			V("A-conjugate", func(w *world, g *gen) any {
 				return rlwe.NewKeyGenerator(w.pA).GenGaloisKeyNew(w.pA.GaloisElementOrderTwoOrthogonalSubgroup(), w.skA)
@@ -490,7 +502,7 @@ func catalogue() []*entry {
 				return rlwe.NewKeyGenerator(w.pA).GenGaloisKeyNew(5, w.skA, evkParams(1, 0, 0, false))
 			}),
 		}},
-		{name: "structs.Map[uint64,rlwe.GaloisKey]", refill: true, vals: []value{
+		{name: "structs.Map[uint64,rlwe.GaloisKey]", zero: Z[structs.Map[uint64, rlwe.GaloisKey]](), refill: true, vals: []value{
 			V("empty", func(w *world, g *gen) any { m := structs.Map[uint64, rlwe.GaloisKey]{}; return &m }),
 			V("gal5+gal25", func(w *world, g *gen) any {
 				kg := rlwe.NewKeyGenerator(w.pA)
@@ -503,7 +515,7 @@ func catalogue() []*entry {
 				return &m
 			}),
 		}},
-		{name: "rlwe.MemEvaluationKeySet", refill: true, vals: []value{
+		{name: "rlwe.MemEvaluationKeySet", zero: Z[rlwe.MemEvaluationKeySet](), refill: true, vals: []value{
 			V("zero-value", func(w *world, g *gen) any { return &rlwe.MemEvaluationKeySet{} }),
 			V("rlk+gal5+gal25", func(w *world, g *gen) any {
 				kg := rlwe.NewKeyGenerator(w.pA)
@@ -524,13 +536,13 @@ func catalogue() []*entry {
 				return rlwe.NewMemEvaluationKeySet(kg.GenRelinearizationKeyNew(w.skA, e), kg.GenGaloisKeyNew(5, w.skA, e))
 			}),
 		}},
-		{name: "rgsw.Ciphertext", vals: []value{
+		{name: "rgsw.Ciphertext", zero: Z[rgsw.Ciphertext](), vals: []value{
 			V("A-1-0", func(w *world, g *gen) any { c := rgsw.NewCiphertext(w.pA, 1, 0, 0); g.fill(c); return c }),
 			V("A-2-1-base2^12", func(w *world, g *gen) any { c := rgsw.NewCiphertext(w.pA, 2, 1, 12); g.fill(c); return c }),
 			V("C-noP", func(w *world, g *gen) any { c := rgsw.NewCiphertext(w.pC, 1, -1, 0); g.fill(c); return c }),
 		}},
 		// ---- circuits
-		{name: "structs.Map[int,rlwe.Ciphertext]", vals: []value{
+		{name: "structs.Map[int,rlwe.Ciphertext]", zero: Z[structs.Map[int, rlwe.Ciphertext]](), vals: []value{
 			V("empty", func(w *world, g *gen) any { m := structs.Map[int, rlwe.Ciphertext]{}; return &m }),
 			V("1,2,4", func(w *world, g *gen) any {
 				m := structs.Map[int, rlwe.Ciphertext]{1: rndCt(g, w.pA, 1, 2, 1), 2: rndCt(g, w.pA, 1, 1, 1), 4: rndCt(g, w.pA, 1, 0, 1)}
@@ -541,7 +553,7 @@ func catalogue() []*entry {
 				return &m
 			}),
 		}},
-		{name: "polynomial.PowerBasis", vals: []value{
+		{name: "polynomial.PowerBasis", zero: Z[polynomial.PowerBasis](), vals: []value{
 			V("chebyshev-1", func(w *world, g *gen) any {
 				p := polynomial.NewPowerBasis(rndCt(g, w.pA, 1, 2, 1), bignum.Chebyshev)
 				return &p
@@ -558,7 +570,7 @@ func catalogue() []*entry {
 			}),
 			V("zero-value", func(w *world, g *gen) any { return &polynomial.PowerBasis{} }),
 		}},
-		{name: "bootstrapping.EvaluationKeys", refill: true, vals: []value{
+		{name: "bootstrapping.EvaluationKeys", zero: Z[bootstrapping.EvaluationKeys](), refill: true, vals: []value{
 			V("zero-value", func(w *world, g *gen) any { return &bootstrapping.EvaluationKeys{} }),
 			V("all-set", func(w *world, g *gen) any {
 				kg := rlwe.NewKeyGenerator(w.pA)
@@ -580,7 +592,7 @@ func catalogue() []*entry {
 			}),
 		}},
 		// ---- multiparty shares
-		{name: "multiparty.PublicKeyGenShare", vals: []value{
+		{name: "multiparty.PublicKeyGenShare", zero: Z[multiparty.PublicKeyGenShare](), vals: []value{
 			V("A", func(w *world, g *gen) any {
 				s := multiparty.NewPublicKeyGenProtocol(w.pA).AllocateShare()
 				g.fill(&s)
@@ -592,7 +604,7 @@ func catalogue() []*entry {
 				return &s
 			}),
 		}},
-		{name: "multiparty.RelinearizationKeyGenShare", vals: []value{
+		{name: "multiparty.RelinearizationKeyGenShare", zero: Z[multiparty.RelinearizationKeyGenShare](), vals: []value{
 			V("A", func(w *world, g *gen) any {
 				_, s, _ := multiparty.NewRelinearizationKeyGenProtocol(w.pA).AllocateShare()
 				g.fill(&s)
@@ -604,7 +616,7 @@ func catalogue() []*entry {
 				return &s
 			}),
 		}},
-		{name: "multiparty.EvaluationKeyGenShare", vals: []value{
+		{name: "multiparty.EvaluationKeyGenShare", zero: Z[multiparty.EvaluationKeyGenShare](), vals: []value{
 			V("A", func(w *world, g *gen) any {
 				s := multiparty.NewEvaluationKeyGenProtocol(w.pA).AllocateShare()
 				g.fill(&s)
@@ -616,7 +628,7 @@ func catalogue() []*entry {
 				return &s
 			}),
 		}},
-		{name: "multiparty.GaloisKeyGenShare", vals: []value{
+		{name: "multiparty.GaloisKeyGenShare", zero: Z[multiparty.GaloisKeyGenShare](), vals: []value{
 			V("A-gal5", func(w *world, g *gen) any {
 				s := multiparty.NewGaloisKeyGenProtocol(w.pA).AllocateShare()
 				g.fill(&s)
@@ -630,7 +642,7 @@ func catalogue() []*entry {
 				return &s
 			}),
 		}},
-		{name: "multiparty.KeySwitchShare", vals: []value{
+		{name: "multiparty.KeySwitchShare", zero: Z[multiparty.KeySwitchShare](), vals: []value{
 			V("A-level2", func(w *world, g *gen) any {
 				s := must(multiparty.NewKeySwitchProtocol(w.pA, ring.DiscreteGaussian{Sigma: 3.2, Bound: 19})).AllocateShare(2)
 				g.fill(&s)
@@ -642,7 +654,7 @@ func catalogue() []*entry {
 				return &s
 			}),
 		}},
-		{name: "multiparty.PublicKeySwitchShare", vals: []value{
+		{name: "multiparty.PublicKeySwitchShare", zero: Z[multiparty.PublicKeySwitchShare](), vals: []value{
 			V("A-level2", func(w *world, g *gen) any {
 				s := must(multiparty.NewPublicKeySwitchProtocol(w.pA, ring.DiscreteGaussian{Sigma: 3.2, Bound: 19})).AllocateShare(2)
 				g.fill(&s)
@@ -654,7 +666,7 @@ func catalogue() []*entry {
 				return &s
 			}),
 		}},
-		{name: "multiparty.RefreshShare", vals: []value{
+		{name: "multiparty.RefreshShare", zero: Z[multiparty.RefreshShare](), vals: []value{
 			V("A-2-2-md1", func(w *world, g *gen) any {
 				ks := must(multiparty.NewKeySwitchProtocol(w.pA, ring.DiscreteGaussian{Sigma: 3.2, Bound: 19}))
 				s := multiparty.RefreshShare{EncToShareShare: ks.AllocateShare(2), ShareToEncShare: ks.AllocateShare(2)}
@@ -677,7 +689,7 @@ func catalogue() []*entry {
 				return &s
 			}),
 		}},
-		{name: "multiparty.ShamirSecretShare", vals: []value{
+		{name: "multiparty.ShamirSecretShare", zero: Z[multiparty.ShamirSecretShare](), vals: []value{
 			V("A", func(w *world, g *gen) any {
 				s := multiparty.NewThresholdizer(w.pA).AllocateThresholdSecretShare()
 				g.fill(&s)
@@ -693,7 +705,3 @@ func catalogue() []*entry {
 	es = append(es, paramEntries()...)
 	return es
 }
-
-// keep imports used while the catalogue is widened
-var _ = dft.MatrixLiteral{}
-var _ = mod1.ParametersLiteral{}
